@@ -426,7 +426,7 @@ func genC30(rt *rapid.T) *c30case {
 		}
 		return b
 	}
-	start := int64(rapid.IntRange(0, 60).Draw(rt, "startSlot"))
+	start := int64(rapid.IntRange(-60, 60).Draw(rt, "startSlot")) // block times may be negative (pre-epoch), TSDB allows it
 	if c.gen == "aligned" {
 		slots := rapid.IntRange(1, 40).Draw(rt, "slots")
 		density := rapid.IntRange(3, 10).Draw(rt, "density")
